@@ -18,12 +18,13 @@ for kind in ('seeded', 'refactors'):
         mp0 = os.path.join(here, kind, d, 'meta.json')
         if json.load(open(mp0)).get('pinned_to_repository_commit'):
             continue            # kept against the commit it was cut for (see its meta.json)
+        git('reset', '-q', '--hard'); git('clean', '-fdq')
         note = 'applies'
         if git('apply', '--check', p).returncode:
             r = git('apply', '--3way', p)
             git('reset', '-q')
             if r.returncode:
-                note = 'DOES NOT APPLY'
+                note = 'DOES NOT APPLY: ' + (r.stderr.strip().splitlines() or ['?'])[-1][:120]
                 bad += 1
             else:
                 open(p, 'w').write(git('diff').stdout)
@@ -31,7 +32,7 @@ for kind in ('seeded', 'refactors'):
             git('reset', '-q', '--hard'); git('clean', '-fdq')
         mp = os.path.join(here, kind, d, 'meta.json')
         m = json.load(open(mp))
-        m['applies_to_repository_commit'] = head if note != 'DOES NOT APPLY' else None
+        m['applies_to_repository_commit'] = head if not note.startswith('DOES NOT APPLY') else None
         json.dump(m, open(mp, 'w'), indent=1)
         if note != 'applies':
             print(d, note)
